@@ -108,6 +108,9 @@ def gen_catalogue(seed):
             "use_regexp_group": t.chance(1, 2, "regexp-group"),
             "skipws": True,
             "ws": None,
+            # a cached reload returns the same object, but every outcome must still dump equal to a fresh process -
+            # in particular a file whose load *failed* must fail again
+            "global_repository": t.chance(1, 3, "global-repository"),
         }
         if template == "mods" and t.chance(1, 4, "ws"):
             cfg["ws"] = " \t\n"
@@ -173,6 +176,8 @@ def build_metamodel(cfg):
                               "textx_tools_support", "use_regexp_group", "skipws")}
     if cfg["ws"] is not None:
         kw["ws"] = cfg["ws"]
+    if cfg.get("global_repository"):
+        kw["global_repository"] = True
     if cfg["template"] == "mods":
         mm = metamodel_from_str(MODS_GRAMMAR, **kw)
         if cfg["procs"] == "record":
